@@ -29,7 +29,7 @@ def base():
     apps = [lcf.ns.App(name=f'a{i}') for i in range(3)]
     for x in [h1, h2] + apps:
         m.add_asset(x)
-    r = lcf.ns.Runs(); r.host = [h1]; r.apps = apps; m.add_association(r)
+    r = lcf.ns.Runs(); r.host = [h1]; r.apps = list(apps); m.add_association(r)
     s = lcf.ns.Special(); s.shost = [h1]; s.special = [apps[1]]; m.add_association(s)
     l = lcf.ns.Link(); l.prv = [h1]; l.nxt = [h2]; m.add_association(l)
     return lg, lcf, m, h1, h2, apps
@@ -71,6 +71,50 @@ def D7():
     apriori.prune_unviable_and_unnecessary_nodes(g)
     left = [x.full_name for x in g.nodes if x.type in ('or', 'and')]
     return bool(left), f'non-viable or/and nodes left after prune: {len(left)}'
+
+
+def D5():
+    lg, lcf, m, *_ = base()
+    g = AttackGraph(lg, m)
+    n = len(g.nodes)
+    g.regenerate_graph()
+    ids = sorted(x.id for x in g.nodes)
+    bad = ids != list(range(n)) or len(g._id_to_node) != n or len(g._full_name_to_node) != n \
+        or any(g.get_node_by_id(x.id) is not x for x in g.nodes)
+    return bad, f'after regenerate: ids {ids[0]}..{ids[-1]}, {len(g._id_to_node)} index entries for {n} nodes'
+
+
+def D14():
+    lg, lcf, m, h1, h2, apps = base()
+    m.remove_asset(h2)
+    try:
+        again = lcf.ns.Host(name='h2')
+        m.add_asset(again, asset_id=h2.id)
+        return again.name != 'h2', f're-added asset got name {again.name!r}'
+    except ValueError as e:
+        return True, f're-adding the removed id raises: {e}'
+
+
+def D15():
+    lg, lcf, m, h1, h2, apps = base()
+    runs = [a for a in m.associations if type(a).__name__ == 'Runs'][0]
+    a0 = apps[0]    # (pjs keeps the very list it was given: apps itself shrinks below)
+    m.remove_asset_from_association(a0, runs)
+    still = [type(a).__name__ for a in a0.associations]
+    return 'Runs' in still, f'a0 left Runs.apps but still lists {still}'
+
+
+def D19():
+    lg, lcf, m, *_ = base()
+    g = AttackGraph(lg, m)
+    a = Attacker(name='x', entry_points=[], reached_attack_steps=[])
+    g.add_attacker(a)
+    n = g.get_node_by_full_name('h1:connect')
+    a.compromise(n)
+    a.entry_points = [n]
+    g.remove_node(n)
+    return (n in a.reached_attack_steps or n in a.entry_points), \
+        f'removed node still referenced by attacker: reached={n in a.reached_attack_steps} entry={n in a.entry_points}'
 
 
 if __name__ == '__main__':
